@@ -151,3 +151,21 @@ with open(os.path.join(HERE, "sa", "rolespecs_auto.py"), "w") as f:
             'every function the rules evaluate.  Do not edit by hand; hand-written entries live in sa/rolespecs.py and win."""\n\n')
     f.write("AUTO = " + pprint.pformat(out, width=160, sort_dicts=True) + "\n")
 print(f"{len(out)} functions, {sum(len(v) for v in out.values())} locals")
+
+# inventory of today's functions (sa/inline.py expands calls to functions that are NOT listed here: helpers a refactoring introduced)
+known = {}
+src_root = os.path.join("/repo", "src", "chmpy")
+for d, _, fs in os.walk(src_root):
+    if "/tests" in d or "__pycache__" in d:
+        continue
+    for f in fs:
+        if f.endswith(".py"):
+            rel = os.path.relpath(os.path.join(d, f), src_root)
+            try:
+                known[rel] = sorted(repo.module(rel).funcs)
+            except Exception as e:      # noqa: BLE001
+                print("skip", rel, e)
+with open(os.path.join(HERE, "sa", "known_funcs_auto.py"), "w") as f:
+    f.write('"""Generated by tools/rolegen.py - the functions of every module as the rules know them."""\n\n')
+    f.write("KNOWN = " + pprint.pformat(known, width=160) + "\n")
+print(f"{len(known)} modules, {sum(len(v) for v in known.values())} known functions")
